@@ -45,7 +45,10 @@ def gen(rng):
     for i in range(n):
         tdir, top, _u = rng.choice(locs)
         base = (home + '/w') if top is None else (L['work'][top])
-        nm = 'ent%d' % i
+        # (names that end - or, in a relative Path, begin - with blanks: the location is exactly what was recorded, blanks included)
+        nm = rng.choice(['', '', '', ' ', '\t']) + 'ent%d' % i + rng.choice(['', '', '', ' ', '\t', '  ', ' \n'])
+        if top is not None and nm.startswith((' ', '\t')) and rng.random() < 0.5:
+            base = top            # directly below the top directory: the relative Path begins with the blank
         loc = base + '/' + nm
         pv = TG.pct(loc if top is None else loc[len(top) + 1:])
         G.add_trashed(steps, tdir, nm, pv, TG.iso(TG.rand_date(rng)), rng.choice(['file', 'dir', 'link']), tag=str(i))
